@@ -350,12 +350,12 @@ func IteU64(c bool, a, b uint64) uint64 {
 
 // ---------- file-system trace (engine only; natively the trace is empty) ----------
 
-func FsReset()            {}
-func FsLen() int          { return 0 }
-func FsOp(i int) string   { return "" }
-func FsPath(i int) string { return "" }
+func FsReset()             {}
+func FsLen() int           { return 0 }
+func FsOp(i int) string    { return "" }
+func FsPath(i int) string  { return "" }
 func FsPath2(i int) string { return "" }
-func FsOK(i int) bool     { return false }
+func FsOK(i int) bool      { return false }
 
 // WalkEntry registers a candidate directory entry for the engine's
 // filepath.Walk stub (natively a no-op: the real file system is walked).
@@ -397,7 +397,14 @@ func (r *NopReader) Read(p []byte) (int, error) {
 	}
 	return 0, errEOF
 }
-func (*NopReader) Close() error               { return nil }
+func (*NopReader) Close() error { return nil }
+
+// SpinLimit (engine only): a goroutine other than the harness' main one that
+// passes n times through one basic block without handing over to another
+// goroutine is taken for a livelock and parked for good; the harness'
+// obligations then see what the rest of the system does without it. A path on
+// which this happened and no obligation failed is reported as inconclusive.
+func SpinLimit(n int) {}
 
 // FsFaultOps restricts which file-system operations may fail (comma list of
 // op names as they appear in the trace). Engine only.
